@@ -190,7 +190,12 @@ func (fs *filestore) Delete(bucket string, filename string) error {
 
 	err := func() error {
 		// Check if the bucket exists
-		if _, err := os.Stat(f); os.IsNotExist(err) {
+		fInfo, err := os.Stat(f)
+		if os.IsNotExist(err) {
+			return os.ErrNotExist
+		}
+		// A directory holds the objects named below it; it is not an object itself.
+		if filename != "" && err == nil && fInfo.IsDir() {
 			return os.ErrNotExist
 		}
 
@@ -203,7 +208,7 @@ func (fs *filestore) Delete(bucket string, filename string) error {
 		if err := os.Remove(f); err != nil {
 			return err
 		}
-		err := os.Remove(metaFilename(f))
+		err = os.Remove(metaFilename(f))
 		if os.IsNotExist(err) {
 			// Legacy files do not have an accompanying metadata file.
 			return nil
